@@ -139,6 +139,10 @@ pub fn c04(tier: &str) -> i32 {
         alpha.push(Op::Auto(ins("t", &[(4, 40)])));
         alpha.push(Op::Auto(del("t", 2)));
         alpha.push(Op::Auto(sel("t")));
+        if !indexed {
+            // gives the row that sessions delete an update history (own-delete visibility walks the version chain)
+            alpha.push(Op::Auto(upd("t", 1, 15)));
+        }
         let depth = if quick { 6 } else { 8 };
         searches.push(mk_search("C04", label, Cfg::default(), prefix, alpha, depth, if quick { 150_000 } else { 6_000_000 }, |_| {}));
     }
